@@ -43,10 +43,23 @@ class DispatchingRequestHandler(BaseHTTPRequestHandler):
         path_elements = parsed_path.path.split('/')
         if len(path_elements[0]) > 0:
             return path_elements[0]
-        return path_elements[1]
+        return path_elements[1] if len(path_elements) > 1 else ''
+
+    def _send_plain_response(self, status: int, reason: str):
+        self.send_response(status, reason)
+        self.send_header("Content-type", "text/plain; charset=utf-8")
+        self.send_header("Content-length", "0")
+        self.end_headers()
 
     def do_POST(self):  # pylint: disable=invalid-name
-        request_bytes = self._read_request()
+        try:
+            request_bytes = self._read_request()
+        except Exception as ex:
+            # malformed framing / content length / content encoding: body cannot be read, connection is unusable
+            self.server.logger.error('could not read request {} from {}: {!r}', self.path, self.client_address, ex)
+            self.close_connection = True  # pylint: disable=attribute-defined-outside-init
+            self._send_plain_response(400, 'Bad Request')
+            return
         if self.server.dispatcher is None:
             # close this connection
             self.close_connection = True  # pylint: disable=attribute-defined-outside-init
@@ -106,7 +119,12 @@ class DispatchingRequestHandler(BaseHTTPRequestHandler):
             self.send_response(404, response_xml_string)  # not found
             return
 
-        component = self.server.dispatcher.get_instance(self.get_first_path_element())
+        try:
+            component = self.server.dispatcher.get_instance(self.get_first_path_element())
+        except InvalidPathError as ex:
+            self.server.logger.error('invalid path {} (request from {}): {}', self.path, self.client_address, ex.reason)
+            self._send_plain_response(ex.status, ex.reason)
+            return
 
         peer_name = self.connection.getpeername()
         result = component.do_get(self.headers, self.path, peer_name)
